@@ -411,13 +411,17 @@ func c15Run(r *vkit.Run) {
 		fn()
 		r.NonTrivial()
 	})
-	r.Note("bounds", fmt.Sprintf("0..%d containers x 3 entry-count patterns x 3 timestamp patterns (distinct interleaved, all equal, reversed) x 17 message offsets x up to 3 stream rotations x 8 option combinations; plus all results of 2 streams x <=2 entries over 2 timestamps x 17 messages (1/%d lattice on the second stream) in 4 stream-identity variants; every byte value 0..255 alone, doubled and inside a message; end to end (argv -> fake daemon -> printed bytes): 1-3 containers x 3 timestamp patterns x 6 message offsets x 20 spellings of the --timestamp/-t, --container/-c, --color flags incl. their defaults", maxN, step))
+	r.Note("bounds", fmt.Sprintf("0..%d containers x 3 entry-count patterns x 3 timestamp patterns (distinct interleaved, all equal, reversed) x 17 message offsets x up to 3 stream rotations x 8 option combinations; plus all results of 2 streams x <=2 entries over 2 timestamps x 17 messages (1/%d lattice on the second stream) in 4 stream-identity variants; every byte value 0..255 alone, doubled and inside a message; end to end (argv -> fake daemon -> printed bytes): 1-3 containers x 3 timestamp patterns x 6 message offsets x 20 spellings of the --timestamp/-t, --container/-c, --color flags incl. their defaults, and four kinds of result without entries", maxN, step))
 }
 
 // ---- end to end: the command itself, from argv over a fake daemon to the printed bytes ----
 
 type c15E2EInput struct {
 	Args []string `json:"args"`
+	// Query (default `{}`); Empty: the query selects nothing (no container matches, every line is filtered out, or
+	// there is no container at all): nothing is printed and the command succeeds.
+	Query string `json:"query,omitempty"`
+	Empty bool   `json:"empty,omitempty"`
 	// what the argv means
 	Timestamp bool `json:"timestamp"`
 	Container bool `json:"container"`
@@ -445,7 +449,11 @@ func c15E2EExec(in c15E2EInput) (o c15Obs) {
 	cmd.SetOut(&out)
 	cmd.SetErr(&bytes.Buffer{})
 	cmd.SilenceUsage, cmd.SilenceErrors = true, true
-	cmd.SetArgs(append(append([]string{"--start=1699999000", "--end=1700001000"}, in.Args...), `{}`))
+	query := in.Query
+	if query == "" {
+		query = `{}`
+	}
+	cmd.SetArgs(append(append([]string{"--start=1699999000", "--end=1700001000"}, in.Args...), query))
 	if err := cmd.ExecuteContext(context.Background()); err != nil {
 		o.Err = err.Error()
 	}
@@ -457,7 +465,11 @@ func c15E2ECheck(r *vkit.Run, in c15E2EInput) {
 	r.Begin("C15/e2e", in)
 	obs := c15E2EExec(in)
 	r.Eval()
-	c15Judge(r, "C15/e2e", c15Input{Streams: in.Logs, Timestamp: in.Timestamp, Container: in.Container, Color: in.Color}, in, obs)
+	logs := in.Logs
+	if in.Empty {
+		logs = nil
+	}
+	c15Judge(r, "C15/e2e", c15Input{Streams: logs, Timestamp: in.Timestamp, Container: in.Container, Color: in.Color}, in, obs)
 }
 
 func c15E2ERun(r *vkit.Run, one func(fn func())) {
@@ -503,6 +515,20 @@ func c15E2ERun(r *vkit.Run, one func(fn func())) {
 					one(func() { c15E2ECheck(r, in) })
 				}
 			}
+		}
+	}
+	// results without entries: no container at all, no container matching, every line filtered out
+	one1 := []c15Stream{{Container: "c0", Entries: []c15Entry{{TS: base, Msg: "m"}, {TS: base + 5, Msg: "n"}}}}
+	for _, f := range forms {
+		for _, e := range []c15E2EInput{
+			{Logs: nil, Empty: true},
+			{Logs: one1, Query: `{container="nosuch"}`, Empty: true},
+			{Logs: one1, Query: `{} |= "no such text"`, Empty: true},
+			{Logs: one1, Query: `{} | json | __error__=""`, Empty: true},
+		} {
+			in := e
+			in.Args, in.Timestamp, in.Container, in.Color = f.args, f.ts, f.ct, f.co
+			one(func() { c15E2ECheck(r, in) })
 		}
 	}
 	r.GlobalState("end-to-end")
